@@ -111,6 +111,112 @@ def check():
     return dict(reproduced=False, cases=cases)
 
 
+def check_values():
+    """[gridding_opts] written in the documented format (comma-separated lists, lists separated by semi-colons, blanks around the separators or not, trailing
+    `# comment`): a dry run through emg3d.cli.main.main must hand the same options to the Simulation, and build the same computational grid, as the API call that is
+    given the per-direction dictionaries."""
+    import sys
+    import emg3d
+    from emg3d.cli.main import main
+    cases = 0
+    td = tempfile.mkdtemp(prefix='c18v_')
+    argv0 = list(sys.argv)
+    sys.argv = ['emg3d', 'config-given-through-main-args']
+
+    def fail(**kw):
+        kw.update(reproduced=True, cases=cases, how='contracts.c18_concrete.check_values: emg3d.cli.main.main(<cfg> -d --save) in a temporary directory vs emg3d.Simulation(..., gridding_opts=<dicts>)')
+        return kw
+
+    def eq(a, b):
+        if isinstance(b, dict):
+            return isinstance(a, dict) and set(a) == set(b) and all(eq(a[k], b[k]) for k in b)
+        if b is None or isinstance(b, (bool, str)):
+            return type(a) is type(b) and a == b
+        a_, b_ = np.asarray(a), np.asarray(b)
+        return not isinstance(a, (dict, bool, str)) and a is not None and a_.shape == b_.shape and bool(np.all(a_ == b_))
+    try:
+        hx = np.ones(8) * 100.0
+        grid = emg3d.TensorMesh([hx, hx, hx], origin=(-400, -400, -600))
+        model = emg3d.Model(grid, 1.5)
+        src = {'TxED-1': emg3d.TxElectricDipole((-150.0, 0.0, -250.0, 0, 0))}
+        rec = {f'RxEP-{i + 1}': emg3d.RxElectricPoint((100.0 + 60 * i, 20.0, -300.0, 0, 0)) for i in range(3)}
+        survey = emg3d.Survey(sources=src, receivers=rec, frequencies=[1.0], noise_floor=1e-15, relative_error=0.05)
+        emg3d.save(os.path.join(td, 'survey.h5'), survey=survey, verb=0)
+        emg3d.save(os.path.join(td, 'model.h5'), model=model, verb=0)
+        three = dict(center_on_edge={'x': False, 'y': False, 'z': True}, stretching={'x': [1.0, 1.3], 'y': [1.0, 1.6], 'z': [1.0, 1.5]},
+                     min_width_limits={'x': [40.0, 60.0], 'y': [80.0, 100.0], 'z': [50.0, 70.0]}, domain={'x': [-300.0, 300.0], 'y': None, 'z': [-500.0, 0.0]})
+        single = dict(center_on_edge=True, stretching=[1.0, 1.4], min_width_limits=[40.0, 90.0], domain={'x': None, 'y': None, 'z': [-500.0, 0.0]})
+        common = dict(center=[-150.0, 0.0, -250.0], frequency=1.0, properties=[1.5])
+
+        def text(v, comma, semi):
+            if isinstance(v, dict):
+                return semi.join(text(v[d], comma, semi) for d in 'xyz')
+            if isinstance(v, list):
+                return comma.join(repr(x) for x in v)
+            return str(v)
+        table = [(three, c, s_, cm) for c, s_, cm in ((', ', '; ', ''), (',', ';', '  # x; y; z'), (', ', ' ; ', ''), (' , ', ' ;', '   # per direction'))]
+        table += [(single, ', ', '; ', ''), (single, ', ', ' ; ', ' # one for all')]
+        for ll, comma, semi, comment in table:
+            cases += 1
+            gopts = dict(common, **ll)
+            cfg = (f"[files]\npath = {td}\nsurvey = survey.h5\nmodel = model.h5\n[simulation]\ngridding = single   # one grid for all\nmax_workers = 1\n"
+                   "[gridding_opts]\ncenter = -150, 0, -250\nfrequency = 1.0\nproperties = 1.5\n")
+            lines = {k: f'{k} = {text(v, comma, semi)}{comment}' for k, v in ll.items()}
+            cfg += '\n'.join(lines.values()) + '\n'
+            with open(os.path.join(td, 'run.cfg'), 'w') as f:
+                f.write(cfg)
+            for fn in ('sim.h5', 'o.h5'):
+                if os.path.isfile(os.path.join(td, fn)):
+                    os.remove(os.path.join(td, fn))
+            try:
+                main([os.path.join(td, 'run.cfg'), '-d', '-q', '--save', 'sim.h5', '--output', 'o.h5'])
+            except (Exception, SystemExit) as e:
+                return fail(clause='[gridding_opts] in the documented list-of-lists format is accepted', config_lines=list(lines.values()), exception=f'{type(e).__name__}: {e}'[:300])
+            out = emg3d.load(os.path.join(td, 'o.h5'), verb=0)
+            got = out['configuration']['simulation_options'].get('gridding_opts', {})
+            for k, v in ll.items():
+                if not eq(got.get(k, '<absent>'), v):
+                    return fail(clause='a list-of-lists option of [gridding_opts] reaches the Simulation with the value of the equivalent API call', config_line=lines[k],
+                                cli_value=repr(got.get(k, '<absent>')), api_value=repr(v))
+            csim = emg3d.Simulation.from_file(os.path.join(td, 'sim.h5'), verb=0)
+            asim = emg3d.Simulation(survey, model, gridding='single', gridding_opts=gopts, max_workers=1, verb=-1)
+            gc, ga = csim.get_grid('TxED-1', 'f-1'), asim.get_grid('TxED-1', 'f-1')
+            if gc.shape_cells != ga.shape_cells or not all(np.array_equal(a, b) for a, b in zip(gc.h, ga.h)) or not np.array_equal(gc.origin, ga.origin):
+                return fail(clause='CLI and API build the same computational grid from the same gridding options', config_lines=list(lines.values()),
+                            cli_grid=f'{gc.shape_cells}, min widths {[float(h.min()) for h in gc.h]}', api_grid=f'{ga.shape_cells}, min widths {[float(h.min()) for h in ga.h]}')
+    finally:
+        sys.argv = argv0
+        shutil.rmtree(td, ignore_errors=True)
+    return dict(reproduced=False, cases=cases)
+
+
+def check_cfg_model():
+    """the dependency contract of configparser used by the deductive part (contracts.c18.cfg_value) against the real configparser, on an enumerated set of lines"""
+    import configparser
+    import itertools
+    from . import c18
+    cases = 0
+    atoms = ['1', ', ', ',', ' ; ', ';', '; ', ' ;', ' # c', '#c', ' ', 'None', ';#', ' ;# ']
+    for pres in ((), ('#',), ('#', ';'), (';',)):
+        for n in (1, 2, 3, 4):
+            for j, combo in enumerate(itertools.product(atoms, repeat=n)):
+                raw = ''.join(combo).strip()
+                if not raw or raw[0] in '#;' or n == 4 and j % 7:
+                    continue
+                cp = configparser.ConfigParser(inline_comment_prefixes=pres or None)
+                try:
+                    cp.read_string('[s]\nkey = ' + raw + '\n')
+                    real = cp.get('s', 'key')
+                except configparser.Error:
+                    continue
+                cases += 1
+                mine = c18.cfg_value('key', raw, pres)
+                if real != mine:
+                    return dict(reproduced=True, cases=cases, clause='model of configparser value extraction agrees with configparser', line=f'key = {raw}',
+                                inline_comment_prefixes=pres, configparser=real, model=mine, how='contracts.c18_concrete.check_cfg_model')
+    return dict(reproduced=False, cases=cases)
+
+
 def check_terminal():
     """emg3d.cli.main.main(argv): every documented terminal option arrives in the dict handed to cli.run.simulation under the name the
     parser consumes, with its value; the three run modes are mutually exclusive; defaults leave everything to the configuration file."""
